@@ -132,6 +132,19 @@ func TestC20Progress(t *testing.T) {
 			}
 			first := w.servers[0].first
 			before := storeNext(w.subSt, first)
+			// sometimes the node's own consensus stores the next certificate(s) itself while the
+			// round is under way (after the loop looked at the store, before the peers are asked)
+			if rapid.IntRange(0, 2).Draw(t, "localduringpoll") == 0 {
+				k := rapid.IntRange(1, 2).Draw(t, "localcerts")
+				for x := 0; x < k; x++ {
+					idx := int(storeNext(w.subSt, first) - first)
+					if idx < len(w.chain) {
+						if err := w.subSt.Put(ctx, w.chain[idx]); err != nil {
+							t.Fatalf("HARNESS: local put: %v", err)
+						}
+					}
+				}
+			}
 			progress, _, err := w.sub.VerifPoll(ctx)
 			if err != nil {
 				vev.Fail(t, c20, "C20/poll/internal-error", "poll returned %v", err)
